@@ -826,3 +826,40 @@ Proof.
   intros d e H. unfold enum_values_check, enum_values_check_with in H.
   apply first_verdict_in in H; [|discriminate]. exact H.
 Qed.
+
+(* ================================================================== *)
+(* 6. Builds (cfg)                                                      *)
+(* ================================================================== *)
+
+Lemma emitted_enums_sites : forall d,
+  emitted_enums d = map (fun s => transform_enum (styled s) (f_base (s_field s)) (s_width s)) (enum_sites d).
+Proof. intros d. unfold emitted_enums, collect_enums. rewrite map_map. reflexivity. Qed.
+
+Lemma filter_all {A} (f : A -> bool) : forall l, (forall x, In x l -> f x = true) -> filter f l = l.
+Proof.
+  induction l as [|a t IH]; intros H; cbn; [reflexivity|].
+  rewrite (H a (or_introl eq_refl)). f_equal. apply IH. intros x Hx. apply H. right. assumption.
+Qed.
+
+(* without cfg gates on the objects / fields that carry generated enums every build contains every enum, and
+   the getter of any build is the getter analysed above *)
+Theorem getter_env_cfg_free : forall env d f p, cfg_free d -> getter_env env d f p = getter d f p.
+Proof.
+  intros env d f p Hfree. unfold getter_env, getter, emitted_enums_env. rewrite emitted_enums_sites.
+  rewrite filter_all; [reflexivity|].
+  intros s Hs. unfold site_on. apply forallb_forall. intros c Hc. rewrite (Hfree s Hs c Hc). reflexivity.
+Qed.
+
+Theorem infallible_getter_total_any_build : forall env d f name p,
+  cfg_free d ->
+  enum_values_check d = VOk ->
+  conv_choice (collect_enums d) f = CMUnsafeInto name ->
+  0 <= p < 2 ^ field_width f ->
+  (f_base f = BInt -> field_width f = carrier_bits (field_width f) ->
+   forall ee v, resolve (emitted_enums d) name = Some ee -> In v (ee_variants ee) ->
+                ev_num v <= 2 ^ (field_width f - 1) - 1) ->
+  exists x, getter_env env d f p = Ok x.
+Proof.
+  intros env d f name p Hfree Hacc Hch Hp Hlit. rewrite getter_env_cfg_free by assumption.
+  eapply infallible_getter_total; eauto.
+Qed.
